@@ -1,4 +1,5 @@
 """Scenario generation per property (all random choices from one PRNG seeded by VERIF_SEED)."""
+import os, sys
 import random, re
 
 PURE = "panel=pure delay=none sched=- raise=- busylvl=0 fault=- scribble=0"
@@ -922,6 +923,18 @@ def widen_c14(panel_names, tier, seed):
                 v[ch] = min(255, max(0, v[ch] + d))
                 vals.append(tuple(v))
     vals += [(127, 127, 127), (0, 66, 129), (0, 255, 255), (191, 191, 191), (64, 64, 64), (127, 128, 128), (190, 190, 190), (192, 192, 192)]
+    # candidates from a scan of the WHOLE RGB888 cube by the harness (a search aid with its own
+    # reference distance; whatever it proposes is judged by the model's oracle like every other value)
+    try:
+        import subprocess
+        hb = os.path.join(os.path.dirname(os.path.dirname(os.path.abspath(__file__))), "harness", "target", "debug", "epdharness")
+        r_ = subprocess.run([hb], input=pure_line("scan", ["color,rgbscan,1,0"]) + "\n", stdout=subprocess.PIPE, text=True, timeout=600)
+        m = re.search(r"CAND=([0-9.;]+)", r_.stdout)
+        if m:
+            for t in m.group(1).split(";"):
+                vals.append(tuple(int(x) for x in t.split(".")))
+    except Exception as e:   # the scan is optional
+        sys.stderr.write(f"rgbscan skipped: {e}\n")
     lines = []
     for i in range(0, len(vals), 60):
         lines.append(pure_line(f"w14-{i // 60}", [f"color,rgbone,888,{r},{gg},{b}" for (r, gg, b) in vals[i:i + 60]]))
